@@ -86,3 +86,7 @@ PENDING.pop("C03", None)
 _p("C18", "other",
    "Static necessary conditions of 'gate definitions check calls; idle and stretched variants act as specified': positional and keyword calls fill the same ordered dict keyed by parameter names in definition order, mixing and unknown keywords are rejected (the arity and kind checks themselves are decided under C14.2/C14.3); the idle definition takes its parent's parameter list, refuses prepare/measure, and add_idle_gates keeps every gate and adds its idle twin; in stretched_gates no escaping closure refers to a variable the loop rebinds, the wrapper calls its parent's unitary with all arguments but the last splatted, and the parameter list is a copy with exactly one trailing FLOAT. Does not decide numeric equality of the unitaries.")
 PENDING.pop("C18", None)
+
+_p("C20", "other",
+   "Static necessary conditions of 'circuit equality is an equivalence consistent with meaning': for every IR class the __eq__ it uses reads every semantic field stored by __init__ on both operands (per-symbol exemptions with reasons); element-wise pairings are length-sensitive (zip_longest or a length comparison, never a bare zip); every __eq__ is total (a foreign operand yields False, not AttributeError -- a necessary condition of symmetry); no field is compared by identity and no __eq__ returns True before all fields are read. Reflexivity/symmetry/discrimination as run-time facts are not decided.")
+PENDING.pop("C20", None)
